@@ -8,6 +8,6 @@ SEED="$1"; PROP="$2"; TIER="${3:-quick}"
 WT=/var/tmp/seedrun-$SEED-$$
 git -C /repo worktree add --detach "$WT" HEAD >/dev/null 2>&1 || { echo "worktree failed"; exit 2; }
 trap 'git -C /repo worktree remove --force "$WT" >/dev/null 2>&1; rm -rf "$WT"' EXIT
-git -C "$WT" apply "/verif/seeded/$SEED/patch.diff" || { echo "APPLY FAILED"; exit 2; }
+git -C "$WT" apply "/verif/seeded/$SEED/patch.diff" 2>/dev/null || git -C "$WT" apply --3way "/verif/seeded/$SEED/patch.diff" >/dev/null 2>&1 || { echo "APPLY FAILED"; exit 2; }
 cd /verif
 VERIF_REPO="$WT" VERIF_EVIDENCE_DIR=/var/tmp/seed-evidence timeout 3000 python3 tools/check.py "$PROP" "$TIER" 2>&1 | grep -v "^\[tlc\]\|^\[scratch\]\|^\[go\]" | cut -c1-600 | tail -4
